@@ -88,6 +88,15 @@ theorem eq_trans (f : Nat) (h : Heap) (u v w : V) (tu tv tw : Tree)
   rw [hb'', hiff''.mpr ((hiff.mp h1).trans (hiff'.mp h2))]
 
 
+/-- "numbers numerically": the model compares doubles as pairs `m / 2^e`; every double the driver builds is in normal
+form (`Dy.norm`, `Dy.ofInt`), normalisation keeps the numeric value, and on normal forms equality of pairs IS
+equality of values — so `eq_iff_content` speaks about numeric equality. -/
+theorem numbers_compare_numerically :
+    (∀ m e, (Dy.norm m e).Normal ∧ (Dy.norm m e).ValEq ⟨m, e⟩) ∧ (∀ i, (Dy.ofInt i).Normal) ∧
+    (∀ a b : Dy, a.Normal → b.Normal → (a = b ↔ a.ValEq b)) :=
+  ⟨fun m e => ⟨Dy.norm_normal m e, Dy.norm_valEq m e⟩, fun _ => Or.inl rfl,
+   fun a b ha hb => ⟨fun h => by subst h; rfl, Dy.normal_unique ha hb⟩⟩
+
 /-! ## assign_spec: assignment leaves the target equal to the assigned value, also for a source inside the target -/
 
 /-- does the statement mention root variable `k`? -/
@@ -161,6 +170,18 @@ theorem assign_spec_partial (σ σ' : State) (t : Loc) (q : Path) (inv : Inv σ 
       obtain ⟨s1, s2, s3⟩ := inv.assignV_spec hl hlive hself hreach ha
       exact ⟨src, h1, s1, s2, s3, inv2⟩
 
+/-- "leaves the target equal to the assigned value": after an executed `p = q`, the Var at `p` compares equal (`==`)
+to every Var that denotes the tree `q` denoted before the assignment -/
+theorem assign_then_equal (σ σ' : State) (t : Loc) (q : Path) (inv : Inv σ []) (hl : ValidLoc σ t)
+    (h : opSetV σ t q = .ok σ') (src w : V) (f : Nat) (tr : Tree)
+    (hq : cget σ q = .ok src) (hsrc : content f σ.heap src = some tr)
+    (hread : readLoc σ' t = .ok src) (hw : content f σ'.heap w = some tr) :
+    eqV f σ'.heap src w = .ok true := by
+  obtain ⟨src', h1, _, _, hcont, _⟩ := assign_spec_partial σ σ' t q inv hl h
+  rw [hq] at h1; cases h1
+  obtain ⟨b, hb, hiff⟩ := eq_iff_content f σ'.heap src w tr tr (hcont f tr hsrc hread) hw
+  rw [hb, hiff.mpr rfl]
+
 /-- the hypotheses of `assign_spec_partial` are met by `v = v[0]` on `v = [[1,2],5]`: the assignment is executed and
 `v` then holds the handle of the former element -/
 example : ((opSetV (run true (initState 1)
@@ -233,6 +254,23 @@ theorem history_never_touches_freed (n : Nat) (ops : List Op) (hops : ∀ op ∈
   | error e =>
     simp only [Safe, Refusal] at hs
     refine ⟨?_, ?_, ?_⟩ <;> intro h <;> cases h <;> simp at hs
+
+/-- in every state reached by such a history, a live block is never orphaned: some root variable or some live block
+holds a handle to it (so the only way a block could outlive all root variables is a cycle of handles, which the
+guards refuse to create) -/
+theorem no_orphan_block (n : Nat) (ops : List Op) (hops : ∀ op ∈ ops, RootExtend op) (id : Nat) (b : Block)
+    (hb : getB (run true (initState n) ops).heap id = .ok b) :
+    ∃ v, handleOf v = some id ∧ (v ∈ (run true (initState n) ops).slots ∨ v ∈ hvals (run true (initState n) ops).heap) := by
+  have inv := (history_safe_partial n ops hops).1
+  have hc := inv.wf.counted id b hb
+  have hp := inv.wf.pos id b hb
+  simp only [List.append_nil] at hc
+  by_cases h1 : 0 < occ id (run true (initState n) ops).slots
+  · obtain ⟨v, hv, hid⟩ := (occ_pos_iff _ _).mp h1
+    exact ⟨v, hid, Or.inl hv⟩
+  · have h2 : 0 < occ id (hvals (run true (initState n) ops).heap) := by omega
+    obtain ⟨v, hv, hid⟩ := (occ_pos_iff _ _).mp h2
+    exact ⟨v, hid, Or.inr hv⟩
 
 /-- the hypotheses are satisfiable by a history that shares, auto-creates, self-assigns and releases -/
 example : ∀ r ∈ results true (initState 3)
